@@ -1288,6 +1288,9 @@ def loop_fragment_cases(rnd, n):
                         L.append("%s%s%s %s;" % (pre, name, args, ", ".join("q[%d]" % x for x in rnd.sample(range(nq), nqb))))
             else:
                 L.append(op(None, 0, -1))
+        if rnd.random() < 0.15:
+            # a global phase without operands: folded to its value, repeated / negated by its modifiers
+            L.append("%sgphase(%s);" % (rnd.choice(["", "", "inv @ ", "pow(2) @ ", "pow(0) @ "]), rnd.choice(PEXPR)))
         if rnd.random() < 0.25:
             # a register declared without a size is a register of size 1
             L.insert(2, "qubit a;")
